@@ -324,6 +324,16 @@ def _pipe_log(q):
 
 def judge_c02(d):
     q, impl, model = d["query"], d["impl"], d["model"]
+    if q.startswith("c02 h3streams "):
+        ops = q.split()[3].split(";")
+        for k, (a, b) in enumerate(zip(impl.split(" | "), model.split(" | "))):
+            if a != b:
+                op = ops[k] if k < len(ops) else "?"
+                what = {"fin": "the client ended its sending side", "close": "the client reset the stream", "sd": "a half of the stream was shut down",
+                        "req": "a request arrived", "err": "a message for an unknown stream was handled"}.get(op.split(".")[0], op)
+                return ("HTTP/3 stream table after %s (%s): the codec holds [%s] (stream:read-shut write-shut), the two directions of a tunnel "
+                        "end independently only if it holds [%s]" % (op, what, a, b))
+        return None
     if q.split()[1] == "hung":
         return "exchange() never returned although all endpoints were silent (tunnel stalls instead of being torn down)"
     if impl == "ok" and model != "ok":
@@ -765,7 +775,10 @@ PROPS = {
              "loopback UDP port - QUIC multiplexer, HTTP/3 codec, Tunnel, direct forwarder - driven by a quiche client of the harness with "
              "flow-control windows of 1 MiB and 8 KiB, including clients that end their stream while the origin still sends; and 4 failing "
              "tunnels (the client resets its stream / the origin aborts with a TCP reset, the other direction idle or transferring): "
-             "the other side must see its connection end within 3 s and hold nothing but a prefix of what was sent",
+             "the other side must see its connection end within 3 s and hold nothing but a prefix of what was sent; three sessions with four "
+             "concurrent requests ended in different ways; at the end every operation each HTTP/3 codec performed on its stream table "
+             "(request, client FIN, client reset, half shutdowns, messages for unknown streams; about 110 per quick run, recorded by the door) "
+             "is replayed by the Lean model TT.H3Streams, which must hold the same table after each",
         explanation="theorems stream_invariant, delivered_is_prefix, credit_*, finished_complete, eof_only_when_drained, eof_after_writes, "
                     "restart_preserves, no_call_after_failure, duplex_* about TT/Model/Pipe.lean for every answer sequence",
         trusted=["cancel-safety of Source::read (scripted sources are cancel-safe; real h2/TCP sources are assumed to be)",
